@@ -271,6 +271,27 @@ def _build_adjuster(r):
     return {'make': make, 'invoke': invoke}
 
 
+def _gen_float_ctor(rng, tier, variant):
+    """every float-encoding spelling (valid, deprecated, unsupported, bogus) x sizes {8, 16, 24, 32, 48, 64, 128} x both byte
+    orders (and the default spelling) x boundary / random bit patterns"""
+    encs = ['IEEE754', 'IEEE754_1985', 'IEEE-754', 'MILSTD_1750A', 'MIL-1750A', 'DEC', 'IBM', 'TI', 'ieee754', 'float']
+    orders = ['mostSignificantByteFirst', 'leastSignificantByteFirst', 'bogusOrder']
+    for enc in encs:
+        for size in (8, 16, 24, 32, 48, 64, 128):
+            for order in orders:
+                n = size // 8
+                pats = [bytes(n), bytes([255]) * n, bytes([0x80]) + bytes(n - 1), bytes(n - 1) + bytes([0x80]),
+                        bytes([0x7f]) + bytes([0xff]) * (n - 1), bytes(range(1, n + 1))]
+                for _ in range(4 if tier == 'quick' else 60):
+                    pats.append(bytes(rng.getrandbits(8) for _ in range(n)))
+                for d in pats:
+                    yield {'size': size, 'enc': enc, 'order': order, 'data': d.hex()}
+
+
+def _build_float_ctor(r):
+    return {'args': {'size_in_bits': r['size'], 'encoding': r['enc'], 'byte_order': r['order'], 'data': bytes.fromhex(r['data'])}}
+
+
 SIZE_OK = 'result == size_spec'
 
 CTXS = 'self.context_calibrators'
@@ -785,5 +806,29 @@ CONTRACTS += [
         reveal=['bits'],
         modifies=['packet.raw_data.pos'],
         native={'gen': _gen_string, 'build': _build_string},
+    ),
+    # ---- lemma (ghost client program): what the REAL constructor stores ------------------------------------------------
+    # The program calls FloatDataEncoding(...) - the prover executes the real __init__ (and NumericDataEncoding.__init__
+    # behind super()) statement by statement on a fresh object - and then calls the stored parsing function through the
+    # contract of whichever closure was stored. It discharges what the contract on the function VALUE `parse_func` (above)
+    # assumes: the MIL closure is stored exactly for MIL-STD-1750A, the IEEE closure otherwise, with the struct format
+    # '<' / '>' for the declared byte order followed by 'e' / 'f' / 'd' for 16 / 32 / 64 bits.
+    Contract(
+        target='ghost.c04_float_ctor',
+        props=['C04', 'C01'],
+        params={'size_in_bits': 'int', 'encoding': 'str', 'byte_order': 'str', 'data': 'bytes'},
+        returns='any',
+        requires=['8 * len(data) == size_in_bits'],
+        ensures={}, modifies=[],
+        native={'gen': _gen_float_ctor, 'build': _build_float_ctor},
+        # the constructor rejects only what the statement leaves out: spellings that are not XTCE float encodings,
+        # MIL-STD-1750A at another size than 32, IEEE at another size than 16 / 32 / 64; DEC / IBM / TI are unsupported
+        may_raise={'ValueError': (
+            "not (encoding == 'IEEE754_1985' or encoding == 'IEEE754' or encoding == 'IEEE-754' or encoding == 'MILSTD_1750A' "
+            "or encoding == 'MIL-1750A' or encoding == 'DEC' or encoding == 'IBM' or encoding == 'TI') or "
+            "((encoding == 'MILSTD_1750A' or encoding == 'MIL-1750A') and size_in_bits != 32) or "
+            "((encoding == 'IEEE754_1985' or encoding == 'IEEE754' or encoding == 'IEEE-754') and "
+            "not (size_in_bits == 16 or size_in_bits == 32 or size_in_bits == 64))"),
+            'NotImplementedError': "encoding == 'DEC' or encoding == 'IBM' or encoding == 'TI'"},
     ),
 ]
